@@ -2,7 +2,9 @@
 (* Property monitor for C13, evaluated by TLC over observations of the real   *)
 (* keep-alive code (one line per scenario: the pings a scripted peer saw and  *)
 (* what it did with each, when the session terminated, when its owner closed  *)
-(* it, what was left behind).  The verdict predicates are the ones the design *)
+(* it, what was left behind; for each ping for how long the session's own     *)
+(* transport held it, and whether the protocol version the session ended up   *)
+(* with has ping at all).  The verdict predicates are the ones the design      *)
 (* check of KeepAlive.tla proves about the model (Accuracy, Completeness,     *)
 (* Timing, SilentStop, NoLeftovers); "drift" compares with the code-shaped    *)
 (* expectation TLC exported for the case (tick alignment, exact closing       *)
@@ -11,8 +13,10 @@ EXTENDS VerifTrace, FiniteSets
 
 \* Only the constant-level part of KeepAlive is used; its variables are bound to dummies.
 KA == INSTANCE KeepAlive WITH
-        Interval <- 8, MaxLen <- 0, Thresholds <- {1}, AnswerDelays <- {0}, DrainLens <- {1},
+        Interval <- 16, MaxLen <- 0, Thresholds <- {1}, AnswerDelays <- {0}, DrainLens <- {1},
         HsSlots <- {0}, CtxSlots <- {-1}, EnvMaxLen <- 0, EnvProduct <- FALSE, hs <- 0, cc <- -1,
+        StallKinds <- {"l0", "l1", "l2"}, MaxStalls <- 0, StallMaxLen <- 0, EstModes <- {"init"}, EstMaxLen <- 0,
+        est <- "init", pendTick <- FALSE, slots <- 0,
         drain <- 0, drainedAt <- -1,
         script <- <<>>, thr0 <- 1, endMode <- "idle", now <- 0, pc <- "done", tickerOn <- FALSE,
         nextTick <- 0, ctxDone <- TRUE, cf <- 0, k <- 0, pend <- [o |-> "a", d |-> 0],
@@ -21,7 +25,10 @@ KA == INSTANCE KeepAlive WITH
 VARIABLE l
 MInit == l = 1 /\ MarkInit
 
-Obs(e) == [T |-> e.T, I |-> e.I, start |-> e.start, pings |-> e.pings,
+\* e.pings[i]: at = when the session handed the ping to its transport (= when the peer saw it,
+\* unless the transport held it for h), o = what became of it; e.pingable = the protocol
+\* version the session negotiated has ping
+Obs(e) == [T |-> e.T, I |-> e.I, start |-> e.start, pings |-> e.pings, pingable |-> e.pingable,
            attempts |-> e.attempts,
            closed |-> e.closed, userClose |-> e.userClose, kaEarly |-> e.kaEarly, kaAlive |-> e.kaAlive, left |-> e.left, exit |-> e.exit]
 
@@ -32,7 +39,8 @@ Strict(e) ==
   /\ Len(e.pings) = e.exp.nping
   /\ \A i \in 1..Len(e.pings) :
         /\ i <= Len(e.exp.ticks) => e.pings[i].at = e.start + e.exp.ticks[i] * U(e)
-        /\ e.pings[i].o = (IF i <= Len(e.pattern) THEN e.pattern[i] ELSE "u")
+        /\ e.pings[i].o = (IF i <= Len(e.pattern) THEN KA!ObsOutcome(e.pattern[i]) ELSE "u")
+        /\ i <= Len(e.exp.holds) => e.pings[i].h = e.exp.holds[i] * U(e)
         /\ e.level = "func" => e.pings[i].dl = KA!PingTimeout(e.I)
   /\ e.closed = (IF e.exp.closeAt < 0 THEN -1 ELSE e.start + e.exp.closeAt * U(e))
   /\ e.start = 0
@@ -44,6 +52,9 @@ Strict(e) ==
   /\ \/ e.hsAt = (IF e.exp.hsAt <= 0 THEN e.exp.hsAt ELSE e.exp.hsAt * U(e))
      \/ e.hsAt = -1 /\ SessEnd(e) >= 0 /\ SessEnd(e) < e.exp.hsAt * U(e)
   /\ e.ccAt = (IF e.exp.ccAt < 0 THEN -1 ELSE e.exp.ccAt * U(e))
+  \* the session was established as the case says: a legacy one unless server/discover succeeded
+  /\ e.pingable = (e.est # "modern")
+  /\ e.est = "fallback" => e.probes >= 1
 
 MNext == /\ l <= NLines /\ l' = l + 1
          /\ LET e == TraceLog[l]  o == Obs(e) IN
